@@ -349,6 +349,15 @@ func symFamily(sym string) string {
 	return "values-differ"
 }
 
+// countMissing counts error("missing") occurrences (at any depth) in the rendering of vals.
+func countMissing(vals []zed.Value) int {
+	n := 0
+	for _, v := range vals {
+		n += strings.Count(oracle.Show(v), `error("missing")`)
+	}
+	return n
+}
+
 // producesView: where with a partial selection, tail that truncates and head that reaches its limit hand a
 // vector.View of their input downstream (otherwise the input vector itself).
 func producesView(op string, in, out int) bool {
@@ -394,7 +403,15 @@ func opsRootCause(ops []string, at int, lens []int, shapeAt, sym string, sam, va
 	}
 	// 3. field access on the output of an operator that selected a subset (where, head, tail produce vector views;
 	// sort materialises and re-vectorises)
-	if referencesField(ops[at]) {
+	viewEvidence := countMissing(vam) > countMissing(sam)
+	switch opKind(ops[at]) {
+	case "where":
+		viewEvidence = viewEvidence || len(vam) < len(sam)
+	case "rename", "drop", "over":
+		// these operators only handle *vector.Record / arrays directly: behind a view they leave the value unchanged
+		viewEvidence = true
+	}
+	if referencesField(ops[at]) && viewEvidence {
 		for j := at - 1; j >= 0; j-- {
 			k := opKind(ops[j])
 			if k == "sort" {
